@@ -243,10 +243,12 @@ class Model(object):
     while True:
       is_last = count >= limit
       kind, rec = self._invoke(n, st, is_last)
-      repeat = ((kind == 'TIMEOUT' and o.get('rot')) or kind == 'REPEAT' or o.get('fr') or
-                (o.get('romf') and rec is not None and rec['outcome'] == 'FAIL'))
-      if o.get('romf') and rec is None:
-        self.x.unspecified.append('repeat_on_measurement_fail on an invocation that wrote no record')
+      # docs: exceptions, STOP and timeouts are terminal ("initiate a terminal short-circuit"); only a timeout
+      # with repeat_on_timeout is re-invoked.  Non-terminal results repeat for REPEAT / force_repeat /
+      # repeat_on_measurement_fail with a FAIL record.
+      repeat = ((kind == 'TIMEOUT' and o.get('rot')) or
+                (not is_terminal_kind(kind) and (kind == 'REPEAT' or o.get('fr') or
+                                                 (o.get('romf') and rec is not None and rec['outcome'] == 'FAIL'))))
       if repeat and not is_last:
         count += 1
         continue
